@@ -25,6 +25,10 @@ PT, PC, VEC, VC, INV, ID, ATOM, RES, STRUCT, KD, NONE, UNK = "PT PC VEC VC INV I
 COORD = (PT, PC, VEC, VC)
 
 
+def f_short(e: ast.Call) -> str:
+    return ast.unparse(e.func).split(".")[-1]
+
+
 def L(k):
     return ("LIST", k)
 
@@ -407,7 +411,33 @@ class _Typer:
     def e_Call(self, e):
         f = ast.unparse(e.func)
         short = f.split(".")[-1]
-        args = [self.ev(a) for a in e.args]
+        args = []
+        for a in e.args:
+            if isinstance(a, ast.Starred):
+                k = self.ev(a.value)
+                # f(*pair): the members of a two-element list / tuple of one kind (cross(*in_plane), torsion(*atoms))
+                if isinstance(k, tuple) and k[0] == "TUPLE":
+                    args.extend(k[1])
+                elif isinstance(k, tuple) and k[0] == "LIST":
+                    if f_short(e) in ("cross", "dot"):
+                        args.extend([k[1], k[1]])
+                    else:
+                        # as many members as the callee has parameters left (a repository function called with *list)
+                        want = 1
+                        try:
+                            callee, recv = self._resolve(e)
+                            if callee is not None:
+                                ps = [a.arg for a in callee.node.args.args]
+                                if ps and ps[0] == "self":
+                                    ps = ps[1:]
+                                want = max(1, len(ps) - len(args) - (len(e.args) - 1 - e.args.index(a)))
+                        except Exception:
+                            want = 1
+                        args.extend([k[1]] * want)
+                else:
+                    args.append(UNK)
+            else:
+                args.append(self.ev(a))
         kws = {k.arg: self.ev(k.value) for k in e.keywords}
         np = f.startswith(("numpy.", "np."))
         if np and short == "cross":
